@@ -2627,7 +2627,8 @@ class SlicedMemoryIO(object):
                 n_bytes, new_n_bytes), TruncationWarning, stacklevel=3)
             n_bytes = new_n_bytes
 
-        if n_bytes <= 0:
+        # Nothing can be read before the start or beyond the end of the region
+        if n_bytes <= 0 or self._offset < 0:
             return b''
 
         # Perform the read and increment the offset
@@ -2660,13 +2661,15 @@ class SlicedMemoryIO(object):
             Number of bytes written.
         """
         if self.address + len(bytes) > self._end_address:
-            n_bytes = self._end_address - self.address
+            # NB: beyond the end of the region there is no space at all
+            n_bytes = max(0, self._end_address - self.address)
 
             warnings.warn("write truncated from {} to {} bytes".format(
                 len(bytes), n_bytes), TruncationWarning, stacklevel=3)
             bytes = bytes[:n_bytes]
 
-        if len(bytes) == 0:
+        # Nothing can be written before the start of the region
+        if len(bytes) == 0 or self._offset < 0:
             return 0
 
         # Perform the write and increment the offset
